@@ -5,14 +5,32 @@ open C03_model
 
 let rec pos_of_int i = if i = 1 then XH else if i land 1 = 0 then XO (pos_of_int (i lsr 1)) else XI (pos_of_int (i lsr 1))
 let n_of_int i = if i = 0 then N0 else Npos (pos_of_int i)
-let z_of_int i = if i = 0 then Z0 else if i > 0 then Zpos (pos_of_int i) else Zneg (pos_of_int (-i))
-let rec int_of_pos = function XH -> 1 | XO p -> 2 * int_of_pos p | XI p -> 2 * int_of_pos p + 1
-let int_of_n = function N0 -> 0 | Npos p -> int_of_pos p
-let int_of_z = function Z0 -> 0 | Zpos p -> int_of_pos p | Zneg p -> - (int_of_pos p)
+(* numbers of any size (local numbers up to 2^64-1, long long globals down to -2^63): decimal string <-> positive, no machine ints *)
+let dec_halve (d : int list) : int list * int =          (* digits, most significant first -> (d / 2, d mod 2) *)
+  let (q, r) = List.fold_left (fun (q, r) x -> let v = 10 * r + x in (v / 2 :: q, v mod 2)) ([], 0) d in
+  let rec strip = function 0 :: (_ :: _ as t) -> strip t | l -> l in
+  (strip (List.rev q), r)
+let rec pos_of_digits d =
+  let (q, r) = dec_halve d in
+  if q = [0] then XH else if r = 0 then XO (pos_of_digits q) else XI (pos_of_digits q)
+let digits_of_string s =
+  if s = "" then failwith "empty number";
+  List.init (String.length s) (fun k -> let c = s.[k] in if c < '0' || c > '9' then failwith ("bad number " ^ s) else Char.code c - 48)
+let n_of_str s = let d = digits_of_string s in if List.for_all (fun x -> x = 0) d then N0 else Npos (pos_of_digits d)
+let z_of_str s =
+  if s <> "" && s.[0] = '-' then (match n_of_str (String.sub s 1 (String.length s - 1)) with N0 -> Z0 | Npos p -> Zneg p)
+  else (match n_of_str s with N0 -> Z0 | Npos p -> Zpos p)
+let dec_double_add (d : int list) (b : int) : int list =  (* digits, LEAST significant first -> 2 d + b *)
+  let rec go c = function [] -> if c = 0 then [] else [c] | x :: t -> let v = 2 * x + c in (v mod 10) :: go (v / 10) t in
+  go b d
+let rec digits_of_pos = function XH -> [1] | XO p -> dec_double_add (digits_of_pos p) 0 | XI p -> dec_double_add (digits_of_pos p) 1
+let str_of_pos p = String.concat "" (List.rev_map string_of_int (digits_of_pos p))
+let str_of_n = function N0 -> "0" | Npos p -> str_of_pos p
+let str_of_z = function Z0 -> "0" | Zpos p -> str_of_pos p | Zneg p -> "-" ^ str_of_pos p
 let rec nat_of_int i = if i = 0 then O else S (nat_of_int (i - 1))
 
 let pair_str p =
-  Printf.sprintf "(%d,%d,%d,%d,%s)" (int_of_z p.c03_g) (int_of_n p.c03_loc) (int_of_n p.c03_attr)
+  Printf.sprintf "(%s,%s,%s,%d,%s)" (str_of_z p.c03_g) (str_of_n p.c03_loc) (str_of_n p.c03_attr)
     (if p.c03_pub then 1 else 0) (if p.c03_del then "D" else "V")
 
 let out_str = function
@@ -20,7 +38,7 @@ let out_str = function
   | C03Bool b -> if b then "1" else "0"
   | C03PairOut p -> pair_str p
   | C03RangeError -> "EXC RangeError"
-  | C03Num z -> string_of_int (int_of_z z)
+  | C03Num z -> str_of_z z
   | C03ModeOut r -> if r then "RESIZE" else "GROUND"
   | C03List l -> "[" ^ String.concat "" (List.map pair_str l) ^ "]"
   | C03Bits b -> "b" ^ String.concat "" (List.map (fun x -> if x then "1" else "0") b)
@@ -32,23 +50,36 @@ let parse_op s =
   let i k = int_of_string t.(k) in
   match t.(0) with
   | "B" -> [C03Begin]
-  | "A" -> [C03Add (z_of_int (i 1), n_of_int (i 2), n_of_int (i 3), i 4 <> 0)]
-  | "a" -> [c03_add_default (z_of_int (i 1))]                 (* add(global): default-constructed local index (model) *)
+  | "A" -> [C03Add (z_of_str t.(1), n_of_str t.(2), n_of_str t.(3), i 4 <> 0)]
+  | "a" -> [c03_add_default (z_of_str t.(1))]                 (* add(global): default-constructed local index (model) *)
   | "D" -> [C03MarkDeleted (nat_of_int (i 1))]
   | "E" -> [C03End] | "R" -> [C03Renumber]
-  | "X" -> [C03Exists (z_of_int (i 1))] | "T" -> [C03At (z_of_int (i 1))] | "G" -> [C03Get (z_of_int (i 1))]
-  | "Y" -> [C03Get (z_of_int (i 1))]                          (* GlobalLookupIndexSet::operator[] forwards to the set *)
+  | "X" -> [C03Exists (z_of_str t.(1))] | "T" -> [C03At (z_of_str t.(1))] | "G" -> [C03Get (z_of_str t.(1))]
+  | "Y" -> [C03Get (z_of_str t.(1))]                          (* GlobalLookupIndexSet::operator[] forwards to the set *)
   | "S" -> [C03Size] | "Q" -> [C03SeqNo] | "M" -> [C03Mode] | "I" -> [C03Iterate]
   | "J" -> [C03Iterate]                                       (* GlobalLookupIndexSet::begin()/end() *)
   | "C" -> [C03Iterate; C03Size; C03SeqNo; C03Mode]           (* a copy read back immediately *)
-  | "V" -> [C03Reverse (n_of_int (i 1))]
-  | "W" -> [C03ReverseSized (n_of_int (i 1), n_of_int (i 2))]
-  | "U" -> [C03SetLocal (z_of_int (i 1), n_of_int (i 2))]
-  | "Z" -> [C03SetEq (n_of_int (i 1))]
-  | "z" -> [C03SetEq (n_of_int (i 1))]                        (* the same comparison against an instance with ANOTHER global index type *)
-  | "K" -> [C03Cmp (nat_of_int (i 1), nat_of_int (i 2), z_of_int (i 3))]
+  | "V" -> [C03Reverse (n_of_str t.(1))]
+  | "W" -> [C03ReverseSized (n_of_str t.(1), n_of_str t.(2))]
+  | "U" -> [C03SetLocal (z_of_str t.(1), n_of_str t.(2))]
+  | "Z" -> [C03SetEq (n_of_str t.(1))]
+  | "z" -> [C03SetEq (n_of_str t.(1))]                        (* the same comparison against an instance with ANOTHER global index type *)
+  | "K" -> [C03Cmp (nat_of_int (i 1), nat_of_int (i 2), z_of_str t.(3))]
+  | "c" -> [C03Size]     (* placeholder: assignment of the current set to a target with pre-existing state; the history continues on the target *)
   | "r" -> [C03Size]     (* placeholder: resolved against the current state by c03_readd_op when the history is stepped *)
   | _ -> failwith ("bad op " ^ s)
+
+(* reverse-lookup tables have (largest local number + 1) entries: with local numbers near 2^31 .. 2^64 (audit 2) they are not built,
+   neither here nor in the harness (same rule, same output) *)
+let table_too_large l = match c03_lookup_size l with C03Num z -> String.length (str_of_z z) > 6 | _ -> false
+let sized_too_large sz = String.length (str_of_n sz) > 6
+let guard_table tok l op =
+  match op with
+  | C03Reverse _ when table_too_large l -> Some "TABLE-TOO-LARGE"
+  | C03ReverseSized (sz, _) when sized_too_large sz -> Some "TABLE-TOO-LARGE"
+  | C03ReverseSized (_, _) when table_too_large l -> Some "PRECOND"      (* a local number >= 999999 > sz overruns the table; not computed in unary *)
+  | (C03Get _ | C03Iterate) when (tok.[0] = 'Y' || tok.[0] = 'J') && table_too_large l -> Some "TABLE-TOO-LARGE"
+  | _ -> None
 
 let rec take n l = if n = 0 then [] else match l with [] -> [] | x :: r -> x :: take (n - 1) r
 let rec drop n l = if n = 0 then l else match l with [] -> [] | _ :: r -> drop (n - 1) r
@@ -78,7 +109,12 @@ let () =
             List.concat (List.map2 (fun tok g ->
               List.map (fun op ->
                 let before = !st in
+                if tok.[0] = 'c' then begin
+                  (* w/2 = configuration of the target, w mod 2 = copy / move assignment: both are member-wise *)
+                  let w = int_of_string (List.nth (String.split_on_char ':' tok) 1) in
+                  st := c03_assign (c03_dirty (n_of_int (w / 2))) before; "ok" end else
                 let op = if tok.[0] = 'r' then c03_readd_op before.c03_local (readd_k tok) else op in
+                match guard_table tok before.c03_local op with Some x -> x | None ->
                 let (st', o) = c03_step chk legacy before op in
                 st := st';
                 let both a b = let sa = out_str a and sb = out_str b in if sa = sb then sa else "nonconst=" ^ sa ^ ",const=" ^ sb in
@@ -99,7 +135,9 @@ let () =
             List.concat (List.map2 (fun tok g ->
               List.map (fun op ->
                 let before = !st in
+                if tok.[0] = 'c' then "ok" else      (* spec: an assigned set IS the source; nothing to do *)
                 let op = if tok.[0] = 'r' then c03_readd_op before.c03s_set (readd_k tok) else op in
+                match guard_table tok before.c03s_set op with Some x -> x | None ->
                 let (st', o) = c03_spec_step before op in
                 st := st';
                 match op with
